@@ -22,6 +22,7 @@ EXPLANATION = (
     "raises HalmosException (stuck -> ERROR). It does not run programs with loops."
     " Also decided: nothing replaces or empties an engine's loop log after its construction."
     ' Round 4: every SEVM construction in __main__ is bound to a local (an engine built inline has a loop log nobody reads).'
+    " Round 5: setUp paths leave the classification loop only through the warning arm or as candidates (R10.6); the loop log is read after the last consumer of the lazy engine's states; C03 R03.4 is evaluated here too."
 )
 ASSUMPTIONS = ["logging delivers warn()/error() records", "C05 R05.1: stuck paths exclude PASS"]
 
@@ -174,9 +175,18 @@ def r10_2_loop_logs_reported(repo: Repo, rep: Report):
                             consumers.append(x)
                 guarded = [r for r in reports if any(f"{a}.bounded_loops" in guard_set(m, r) for a in aliases)]
                 if consumers and guarded:
-                    last = max(getattr(x, "end_lineno", x.lineno) for x in consumers)
-                    late = all(r.lineno > last for r in guarded)
-                    rep.check("R10.2", late, m, guarded[0], f"__main__.{q}: the loop-log test follows the last consumer of {var}'s states (line {last})", "the loop log is read before the (lazy) engine has run: it is still empty, so the LOOP_BOUND warning can never fire")
+                    # document order by traversal (line numbers are not reliable in the normalised view)
+                    order = {}
+
+                    def number(node):
+                        order[id(node)] = len(order)
+                        for ch in ast.iter_child_nodes(node):
+                            number(ch)
+
+                    number(fn)
+                    last = max(order[id(y)] for x in consumers for y in ast.walk(x) if isinstance(y, (ast.stmt, ast.expr)))  # (Load/Store/operator nodes are shared singletons)
+                    late = all(order[id(r)] > last for r in guarded)
+                    rep.check("R10.2", late, m, guarded[0], f"__main__.{q}: the loop-log test follows the last consumer of {var}'s states", "the loop log is read before the (lazy) engine has run: it is still empty, so the LOOP_BOUND warning can never fire")
                 elif not consumers:
                     raise AnalysisError(f"R10.2: no consumer of {var}.run / run_message found in __main__.{q}")
     if n < 3:
